@@ -2526,19 +2526,9 @@ pub fn array_insert(
     new_value: &[u8],
     buf: &mut Vec<u8>,
 ) -> Result<(), Error> {
-    if !is_jsonb(value) {
-        let value = parse_value(value)?;
-        let mut val_buf = Vec::new();
-        value.write_to_vec(&mut val_buf);
-        if !is_jsonb(new_value) {
-            let new_value = parse_value(new_value)?;
-            let mut new_val_buf = Vec::new();
-            new_value.write_to_vec(&mut new_val_buf);
-            return array_insert_jsonb(&val_buf, pos, &new_val_buf, buf);
-        }
-        return array_insert_jsonb(&val_buf, pos, new_value, buf);
-    }
-    array_insert_jsonb(value, pos, new_value, buf)
+    let value = to_jsonb(value)?;
+    let new_value = to_jsonb(new_value)?;
+    array_insert_jsonb(&value, pos, &new_value, buf)
 }
 
 fn array_insert_jsonb(
@@ -2656,19 +2646,9 @@ fn array_distinct_jsonb(value: &[u8], buf: &mut Vec<u8>) -> Result<(), Error> {
 
 /// Return a JSONB Array that contains the matching elements in the two input JSONB Arrays.
 pub fn array_intersection(value1: &[u8], value2: &[u8], buf: &mut Vec<u8>) -> Result<(), Error> {
-    if !is_jsonb(value1) {
-        let value1 = parse_value(value1)?;
-        let mut val_buf1 = Vec::new();
-        value1.write_to_vec(&mut val_buf1);
-        if !is_jsonb(value2) {
-            let value2 = parse_value(value2)?;
-            let mut val_buf2 = Vec::new();
-            value2.write_to_vec(&mut val_buf2);
-            return array_intersection_jsonb(&val_buf1, &val_buf2, buf);
-        }
-        return array_intersection_jsonb(&val_buf1, value2, buf);
-    }
-    array_intersection_jsonb(value1, value2, buf)
+    let value1 = to_jsonb(value1)?;
+    let value2 = to_jsonb(value2)?;
+    array_intersection_jsonb(&value1, &value2, buf)
 }
 
 fn array_intersection_jsonb(value1: &[u8], value2: &[u8], buf: &mut Vec<u8>) -> Result<(), Error> {
@@ -2731,19 +2711,9 @@ fn array_intersection_jsonb(value1: &[u8], value2: &[u8], buf: &mut Vec<u8>) -> 
 /// Return a JSONB Array that contains the elements from one input JSONB Array
 /// that are not in another input JSONB Array.
 pub fn array_except(value1: &[u8], value2: &[u8], buf: &mut Vec<u8>) -> Result<(), Error> {
-    if !is_jsonb(value1) {
-        let value1 = parse_value(value1)?;
-        let mut val_buf1 = Vec::new();
-        value1.write_to_vec(&mut val_buf1);
-        if !is_jsonb(value2) {
-            let value2 = parse_value(value2)?;
-            let mut val_buf2 = Vec::new();
-            value2.write_to_vec(&mut val_buf2);
-            return array_except_jsonb(&val_buf1, &val_buf2, buf);
-        }
-        return array_except_jsonb(&val_buf1, value2, buf);
-    }
-    array_except_jsonb(value1, value2, buf)
+    let value1 = to_jsonb(value1)?;
+    let value2 = to_jsonb(value2)?;
+    array_except_jsonb(&value1, &value2, buf)
 }
 
 fn array_except_jsonb(value1: &[u8], value2: &[u8], buf: &mut Vec<u8>) -> Result<(), Error> {
@@ -2807,19 +2777,9 @@ fn array_except_jsonb(value1: &[u8], value2: &[u8], buf: &mut Vec<u8>) -> Result
 /// Compares whether two JSONB Arrays have at least one element in common.
 /// Return TRUE if there is at least one element in common; otherwise return FALSE.
 pub fn array_overlap(value1: &[u8], value2: &[u8]) -> Result<bool, Error> {
-    if !is_jsonb(value1) {
-        let value1 = parse_value(value1)?;
-        let mut val_buf1 = Vec::new();
-        value1.write_to_vec(&mut val_buf1);
-        if !is_jsonb(value2) {
-            let value2 = parse_value(value2)?;
-            let mut val_buf2 = Vec::new();
-            value2.write_to_vec(&mut val_buf2);
-            return array_overlap_jsonb(&val_buf1, &val_buf2);
-        }
-        return array_overlap_jsonb(&val_buf1, value2);
-    }
-    array_overlap_jsonb(value1, value2)
+    let value1 = to_jsonb(value1)?;
+    let value2 = to_jsonb(value2)?;
+    array_overlap_jsonb(&value1, &value2)
 }
 
 fn array_overlap_jsonb(value1: &[u8], value2: &[u8]) -> Result<bool, Error> {
@@ -2880,19 +2840,9 @@ pub fn object_insert(
     update_flag: bool,
     buf: &mut Vec<u8>,
 ) -> Result<(), Error> {
-    if !is_jsonb(value) {
-        let value = parse_value(value)?;
-        let mut val_buf = Vec::new();
-        value.write_to_vec(&mut val_buf);
-        if !is_jsonb(new_value) {
-            let new_value = parse_value(new_value)?;
-            let mut new_val_buf = Vec::new();
-            new_value.write_to_vec(&mut new_val_buf);
-            return object_insert_jsonb(&val_buf, new_key, &new_val_buf, update_flag, buf);
-        }
-        return object_insert_jsonb(&val_buf, new_key, new_value, update_flag, buf);
-    }
-    object_insert_jsonb(value, new_key, new_value, update_flag, buf)
+    let value = to_jsonb(value)?;
+    let new_value = to_jsonb(new_value)?;
+    object_insert_jsonb(&value, new_key, &new_value, update_flag, buf)
 }
 
 fn object_insert_jsonb(
@@ -3158,6 +3108,16 @@ pub(crate) fn is_jsonb(value: &[u8]) -> bool {
         }
     }
     false
+}
+
+// Convert `JSON` text to `JSONB`, each argument of a function can be given in either form,
+// a value that is already `JSONB` is used as it is.
+fn to_jsonb(value: &[u8]) -> Result<Cow<'_, [u8]>, Error> {
+    if is_jsonb(value) {
+        Ok(Cow::Borrowed(value))
+    } else {
+        Ok(Cow::Owned(parse_value(value)?.to_vec()))
+    }
 }
 
 fn read_u32(buf: &[u8], idx: usize) -> Result<u32, Error> {
